@@ -344,12 +344,17 @@ func (e *Engine) scanCallMods(call *ssa.CallCommon, li *loopInfo, ms *modSet, de
 		}
 	}
 	if fn == nil {
+		fn = e.globalFuncOf(call.Value) // read-only package-level func variable
+	}
+	if fn == nil {
 		ms.all = true
 		ms.why = append(ms.why, "call through function value")
 		return
 	}
 	if c := e.contractFor(fn); c != nil && !c.Inline {
+		e.modsCallee = fn // the actual (possibly generic-instantiated) callee
 		e.contractMods(c, ms)
+		e.modsCallee = nil
 		return
 	}
 	name := fn.String()
@@ -396,12 +401,18 @@ func (e *Engine) contractMods(c *Contract, ms *modSet) {
 				continue
 			}
 			// static resolution needs types only: evaluate in a throw-away state
-			fn := e.FindFunc(c)
+			fn := e.modsCallee
+			if fn == nil {
+				fn = e.FindFunc(c)
+			}
 			st := e.newState()
 			env := &Env{e: e, st: st, sink: st, names: map[string]*Val{}, callArg: true}
 			if fn != nil {
+				env.tparams = typeParamsOf(fn)
 				if fn.Pkg != nil {
 					env.pkg = fn.Pkg.Pkg
+				} else if o := fn.Origin(); o != nil && o.Pkg != nil {
+					env.pkg = o.Pkg.Pkg
 				}
 				for _, p := range fn.Params {
 					env.names[p.Name()] = &Val{T: "dummy", Ty: p.Type()}
@@ -549,6 +560,9 @@ func (e *Engine) applyModSet(st *State, ms *modSet, resolve func(ssa.Value) *Val
 		// loop are havoc'd explicitly below)
 		e.havocAllKeepPrivate(st)
 		st.taint["loop havoc all: "+strings.Join(ms.why, "; ")] = true
+		if traceInline {
+			fmt.Println("HAVOC-ALL in loop/callback:", strings.Join(ms.why, "; "))
+		}
 	}
 	// components touched only by fresh allocations: unchanged at every
 	// reference that was allocated before
@@ -667,11 +681,27 @@ func (e *Engine) checkFrame(st *State, fr *Frame, c *Contract) {
 	allowed := map[string][]string{} // component -> refs allowed to change ("*" = any)
 	for _, m := range c.Modifies {
 		for _, loc := range splitTop(m.Text, ',') {
-			loc = strings.TrimSpace(loc)
-			if loc == "*" {
-				return
+			if strings.TrimSpace(loc) == "*" {
+				return // anything may change: no frame obligation
 			}
+		}
+	}
+	for _, m := range c.Modifies {
+		for _, loc := range splitTop(m.Text, ',') {
+			loc = strings.TrimSpace(loc)
 			if loc == "" || loc == "nothing" || strings.HasPrefix(loc, "ghost:") {
+				continue
+			}
+			if strings.HasPrefix(loc, "mview(") && strings.HasSuffix(loc, ")") {
+				cl, err := parseClause(loc[len("mview(") : len(loc)-1])
+				if err != nil {
+					panic(err.Error())
+				}
+				v := env.eval(cl.Expr)
+				if mv, _, mh, _, ok := e.mviewComps(v.Ty); ok {
+					allowed[mv] = append(allowed[mv], v.T)
+					allowed[mh] = append(allowed[mh], v.T)
+				}
 				continue
 			}
 			if strings.HasSuffix(loc, "[*]") {
